@@ -294,6 +294,23 @@ def run(ctx):
                     ctx.check('R5', f'{F}: {exc} from {callee}() cannot escape', False, F, f'escapes:{exc}@{callee}',
                               f'{exc} raised by `{short(call) if call is not None else "a callee"}` escapes {F}: the call raises instead of returning whether the worker is dead '
                               '(e.g. the child ended between the liveness check and the request)', where=loc(f, call) if call is not None else loc(f, f.node))
+    # the forced kill is SIGTERM: it only works on an unresponsive child (stuck in C code, interpreter lock held) while the child keeps the
+    # default disposition - a Python-level handler would merely set a flag that is never looked at
+    n_sig = 0
+    for c in P.classes.values():
+        names = [x.name for x in c.mro() if not isinstance(x, str)]
+        if 'ProcessWorker' not in names and 'RemoteWorker' not in names:
+            continue
+        for f in c.methods.values():
+            for call in calls_in(f.node):
+                if (dotted(call.func) or '') == 'signal.signal' and len(call.args) == 2 and 'SIGTERM' in norm(call.args[0]):
+                    n_sig += 1
+                    ok = norm(call.args[1]) in ('signal.SIG_DFL',)
+                    ctx.check('R4', f'{f.short}: SIGTERM keeps its default disposition in the child', ok, f.short, f'sigterm-handler-in-child:{norm(call.args[1])}',
+                              f'{f.short} installs `{norm(call.args[1])}` for SIGTERM in a worker child: terminate(force=True) relies on SIGTERM killing a child that no longer runs '
+                              'Python code (blocked in a C call, interpreter lock held); with a Python-level handler the signal only sets a flag and the child survives the forced kill',
+                              where=loc(f, call))
+    ctx.stats['sigterm_dispositions_in_children'] = n_sig
     # the dead cache may only be set under evidence, wherever it is set (not only in wait/terminate/is_alive)
     done = {f.qualname for _, f, _, _ in us if f.name in ('wait', 'terminate', 'is_alive')}
     for name in PUBLIC:
